@@ -622,8 +622,11 @@ def _gen_sink():
         for node in tf.body:
             if isinstance(node, ast.If) and ast.unparse(node.test) == "is_rotating":
                 srcs = [ast.unparse(x) for x in node.body]
-                if srcs and srcs[0] == "self._create_file(new_path)":
-                    tagged = "set_ctime(new_path, datetime.datetime.now().timestamp())" in srcs[1:]
+                if "self._create_file(new_path)" in srcs:
+                    # the tag only sticks when it is written AFTER the file exists (set_ctime swallows the OSError
+                    # of a missing file) and unconditionally
+                    made = srcs.index("self._create_file(new_path)")
+                    tagged = "set_ctime(new_path, datetime.datetime.now().timestamp())" in srcs[made + 1:]
         if tagged is None:
             raise Unsupported("_terminate_file: creation of the new file not found")
         body += "/-- after a rotation, is the new file unconditionally tagged `set_ctime(new_path, now)`? -/\n"
